@@ -24,6 +24,9 @@
 // return the input slice itself on an empty input, so a1 is expected exactly when that empty
 // window has spare capacity).
 //
+// Round 4 (round4.go): "P <prelude> <line>" (calls made before the case), "V ..." (LCS of two views
+// of one array), modes g (strings with equal hashes) and j (uint64 around 2^53 and 2^63), "wn" (nil).
+//
 // A panic is recorded as "panic:<kind>", a call that does not return within the watchdog as "hang"
 // (after three hangs the remaining cases are recorded as "skipped-after-hangs", because every
 // hung call keeps spinning in its goroutine).
@@ -95,6 +98,12 @@ type window struct{ backing, w []int }
 const guard = 770000
 
 func mkWindow(vs []int, pre, spare int) window {
+	if pre < 0 { // "wn": a nil slice for an empty input
+		if len(vs) == 0 {
+			return window{}
+		}
+		pre, spare = 0, 0
+	}
 	b := make([]int, pre+len(vs)+spare)
 	for i := range b {
 		b[i] = guard + i
@@ -105,6 +114,9 @@ func mkWindow(vs []int, pre, spare int) window {
 
 // parseWin reads the optional w<pre>,<spare> field.
 func parseWin(f []string, at int) (pre, spare int) {
+	if len(f) > at && f[at] == "wn" {
+		return -1, 0
+	}
 	if len(f) > at && strings.HasPrefix(f[at], "w") {
 		p := tr.UnInts(f[at][1:])
 		if len(p) == 2 {
@@ -124,11 +136,38 @@ func exec(in string) string {
 	if hangs >= 3 {
 		return "skipped-after-hangs"
 	}
-	p := tr.Guard(2*time.Second, func() {
+	var prelude string
+	postlude = ""
+	if len(f) >= 3 && f[0] == "P" { // calls made before the case (round4.go)
+		prelude, f = f[1], f[2:]
+	}
+	if len(f) < 3 {
+		return "?"
+	}
+	p := tr.Guard(5*time.Second, func() {
+		if prelude != "" {
+			setPrelude(prelude)
+		}
 		switch f[0] {
+		case "V":
+			out = execViews(f)
 		case "L":
+			if len(f) < 4 {
+				out = "?"
+				break
+			}
+			if f[1] == "g" {
+				out = typedLCS(tr.UnInts(f[2]), tr.UnInts(f[3]))
+				break
+			}
 			pre, spare := parseWin(f, 4)
-			wa, wb := mkWindow(tr.UnInts(f[2]), pre, spare), mkWindow(tr.UnInts(f[3]), spare, pre)
+			wa := mkWindow(tr.UnInts(f[2]), pre, spare)
+			var wb window
+			if pre < 0 {
+				wb = mkWindow(tr.UnInts(f[3]), -1, 0)
+			} else {
+				wb = mkWindow(tr.UnInts(f[3]), spare, pre)
+			}
 			as, bs := wa.w, wb.w
 			as0, bs0 := slices.Clone(wa.backing), slices.Clone(wb.backing)
 			var res []int
@@ -137,6 +176,7 @@ func exec(in string) string {
 			} else {
 				res = slice.LCSFunc(as, bs, eqFor(f[1]))
 			}
+			afterCall()
 			m := !slices.Equal(wa.backing, as0) || !slices.Equal(wb.backing, bs0)
 			shown := tr.Ints(res)
 			nl := "s"
@@ -170,6 +210,7 @@ func exec(in string) string {
 			default:
 				res = slice.LNDSFunc(vs, cmpFor(f[1]))
 			}
+			afterCall()
 			m := !slices.Equal(wv.backing, vs0)
 			shown := tr.Ints(res)
 			vs1 := slices.Clone(wv.backing)
@@ -205,7 +246,9 @@ var extInt8 = []int8{-128, -127, -1, 0, 1, 126, 127}
 var extFloat = []float64{math.NaN(), math.Inf(-1), -1.5, 0, 1.5, math.Inf(1)}
 var extString = []string{"", "0", "00", "1", "a", "ab", "b"}
 
-func typedMode(m string) bool { return m == "b" || m == "h" || m == "f" || m == "s" }
+func typedMode(m string) bool {
+	return m == "b" || m == "h" || m == "f" || m == "s" || m == "g" || m == "j"
+}
 
 func typedCodes(m string) int {
 	switch m {
@@ -215,6 +258,10 @@ func typedCodes(m string) int {
 		return len(extInt8)
 	case "f":
 		return len(extFloat)
+	case "g":
+		return len(collTable)
+	case "j":
+		return len(extU64)
 	}
 	return len(extString)
 }
@@ -222,6 +269,9 @@ func typedCodes(m string) int {
 func typedRun[T cmp.Ordered](strict bool, table []T, codes []int) string {
 	vs := make([]T, len(codes))
 	for i, c := range codes {
+		if c < 0 || c >= len(table) {
+			return "?"
+		}
 		vs[i] = table[c]
 	}
 	in := slices.Clone(vs)
@@ -231,6 +281,7 @@ func typedRun[T cmp.Ordered](strict bool, table []T, codes []int) string {
 	} else {
 		res = slice.LNDS(vs)
 	}
+	afterCall()
 	same := func(a, b T) bool { return cmp.Compare(a, b) == 0 }
 	m := !slices.EqualFunc(vs, in, same)
 	back := make([]int, len(res))
@@ -253,6 +304,10 @@ func typedLIS(strict bool, mode string, codes []int) string {
 		return typedRun(strict, extInt8, codes)
 	case "f":
 		return typedRun(strict, extFloat, codes)
+	case "g":
+		return typedRun(strict, collTable, codes)
+	case "j":
+		return typedRun(strict, extU64, codes)
 	}
 	return typedRun(strict, extString, codes)
 }
@@ -345,7 +400,11 @@ func emitLCS(g *tr.G, mode string, a, b []int, ka, kb []int, extra ...string) {
 	emitted++
 	wf, wt := winField(emitted)
 	tags = append(append(tags, wt...), "lcs-mode-"+mode)
-	g.Emit("L "+mode+" "+tr.Ints(a)+" "+tr.Ints(b)+wf, nt, append(tags, extra...)...)
+	tags = append(tags, extra...)
+	if (len(a) == 0 || len(b) == 0) && emitted%3 == 0 {
+		wf, tags = " wn", append(tags, "lcs-nil-input")
+	}
+	g.Emit("L "+mode+" "+tr.Ints(a)+" "+tr.Ints(b)+wf, nt, tags...)
 }
 
 func lisTags(keys []int) (bool, []string) {
@@ -378,7 +437,10 @@ func emitLIS(g *tr.G, mode string, keys []int, vs []int, extra ...string) {
 	emitted++
 	wf, wt := winField(emitted)
 	tags = append(append(tags, wt...), "lis-mode-"+mode)
-	if len(vs) == 0 && wf != "" && !strings.HasSuffix(wf, ",0") {
+	if len(vs) == 0 && emitted%3 == 0 {
+		wf, tags = " wn", append(tags, "lis-nil-input")
+	}
+	if len(vs) == 0 && wf != "" && wf != " wn" && !strings.HasSuffix(wf, ",0") {
 		tags = append(tags, "lis-empty-with-spare-capacity")
 	}
 	g.Emit("I "+mode+" "+tr.Ints(vs)+wf, nt, tags...)
@@ -441,11 +503,14 @@ func mutate(r *tr.Rand, base []int, k int) []int {
 }
 
 func main() {
-	tr.Main("C12: LCS over every pair of lists of 3 symbols up to length 4 (quick) / 5 (thorough) with key-only equality and position payloads (which element is returned is observable), the same pairs up to length 3 / 4 under two equivalences coarser than key identity, an asymmetric test (key(a) <= key(b): pins the argument order of eq) and a non-reflexive one (== at NaN), plain == over 2 symbols to length 6 / 7, random pairs derived from a common base by edits (long common runs, alphabets of 2-5 symbols, lengths to 49) under all six tests; LIS and LNDS over every list of 4 symbols up to length 6 (quick) / 8 (thorough) under natural, reversed and two coarse-preorder key comparisons (key/2, key%3: distinct keys tie, payloads tell them apart), and up to length 5 / 8 under difference-valued comparisons of several magnitudes (a-b, 3(a-b), 7(b-a), MinInt/MaxInt) and the cmp.Ordered wrappers, random lists with runs of equal keys, nearly sorted and nearly reversed (lengths to 60 / 99) under all ten comparisons. Every input slice is a window into a larger array (five shapes: cells before, spare capacity after); the whole backing arrays are compared before/after each call and again after the returned slice has been overwritten up to its capacity (m/a flags). A case is non-trivial when an input contains a repeated key; distinct = distinct input lines.",
+	tr.Main("C12: LCS over every pair of lists of 3 symbols up to length 4 (quick) / 5 (thorough) with key-only equality and position payloads (which element is returned is observable), the same pairs up to length 3 / 4 under two equivalences coarser than key identity, an asymmetric test (key(a) <= key(b): pins the argument order of eq) and a non-reflexive one (== at NaN), plain == over 2 symbols to length 6 / 7, random pairs derived from a common base by edits (long common runs, alphabets of 2-5 symbols, lengths to 49) under all six tests; LIS and LNDS over every list of 4 symbols up to length 6 (quick) / 8 (thorough) under natural, reversed and two coarse-preorder key comparisons (key/2, key%3: distinct keys tie, payloads tell them apart), and up to length 5 / 8 under difference-valued comparisons of several magnitudes (a-b, 3(a-b), 7(b-a), MinInt/MaxInt) and the cmp.Ordered wrappers, random lists with runs of equal keys, nearly sorted and nearly reversed (lengths to 60 / 99) under all ten comparisons. Every input slice is a window into a larger array (five shapes: cells before, spare capacity after); the whole backing arrays are compared before/after each call and again after the returned slice has been overwritten up to its capacity (m/a flags). Round 4: the same line forms once more behind preludes (P lines: a recovered panic inside eq / cmp at the first call, mid-way, in the last row or at the very last call, a much larger call that runs to its end; postludes between the call and the look at its result; pools emptied before each); LCS of two views of ONE array (identical, either a prefix of the other, same end, nested, overlapping, disjoint) under all six tests; []string of pairs with equal 32-bit hashes (FNV-1/1a, CRC-32, Adler-32, 31/33-polynomials, sdbm) through LCS, LIS and LNDS, []uint64 around 2^53 and 2^63, ints above 2^53, nil inputs; run-length sweeps for LIS and LNDS (a run of exactly L, a lower run of L, one element in between; ascending, plateaus, staircases; natural and reversed): every L to 256, every eighth L to 600 plus the multiples of 64 and 100 (thorough: every L to 600 in every shape), sizes 2^k-1, 2^k, 2^k+1 to 1025 (2049). A case is non-trivial when an input contains a repeated key; distinct = distinct input lines.",
 		exec, func(g *tr.G) {
 			if g.Prop != "C12" {
 				return
 			}
+			// round 4, first: cases behind preludes (round4.go; first, while the heap is small: every
+			// one of them starts with two garbage collections)
+			genPreludes(g)
 			// ---- LCS, exhaustive
 			var lists3, lists2 [][]int
 			allLists(3, g.Scale(4, 5), func(ks []int) { lists3 = append(lists3, slices.Clone(ks)) })
@@ -545,5 +610,7 @@ func main() {
 					g.Emit("N "+mode+" "+tr.Ints(ks), nt, append(tags, "lis-typed-"+mode)...)
 				}
 			}
+			// round 4: views of one array, colliding strings, run-length sweeps, sizes (round4.go)
+			round4(g)
 		})
 }
